@@ -128,16 +128,23 @@ def run_pack(pid, mod):
   res = {'seeded': len(muts), 'fired': [], 'missed': [], 'not_applicable_patch': [], 'scratch_extraction_s': None, 'evaluated_alone': []}
   if not muts:
     return res
-  fired, missed, unapplied, compiled = _evaluate(pid, mod, muts, res)
-  res['fired'] += fired
-  alone = missed + unapplied
-  if len(muts) == 1:
-    alone = []
-    if not compiled:
-      res['not_applicable_patch'] += [m['name'] + ' (scratch copy does not compile)' for m in missed]
+  # edits known to end a rule early (a lost anchor) carry a `group` of their own so that they do not mask the others
+  groups = {}
+  for m in muts:
+    groups.setdefault(m.get('group', 0), []).append(m)
+  alone = []
+  for g in sorted(groups, key=str):
+    gm = groups[g]
+    fired, missed, unapplied, compiled = _evaluate(pid, mod, gm, res)
+    res['fired'] += fired
+    if len(gm) == 1:
+      if not compiled:
+        res['not_applicable_patch'] += [m['name'] + ' (scratch copy does not compile)' for m in missed]
+      else:
+        res['missed'] += [{'mutant': m['name'], 'expect': list(m['expect'])} for m in missed]
+        res['not_applicable_patch'] += [m['name'] for m in unapplied]
     else:
-      res['missed'] += [{'mutant': m['name'], 'expect': list(m['expect'])} for m in missed]
-      res['not_applicable_patch'] += [m['name'] for m in unapplied]
+      alone += missed + unapplied
   for m in alone:
     res['evaluated_alone'].append(m['name'])
     f1, m1, u1, c1 = _evaluate(pid, mod, [m], res)
